@@ -82,9 +82,22 @@ def item(p, b, tag):
 
 @st.composite
 def ubx_items(draw, good_bias=True):
-    kind = draw(st.sampled_from(["corpus", "corpus", "target", "target", "badck", "odd", "long"]))
+    kind = draw(st.sampled_from(["corpus", "corpus", "target", "target", "badck", "odd", "long", "magic-ck",
+                                 "block"]))
     if kind == "corpus":
         return item("ubx", draw(st.sampled_from(corpus()["ubx"])), "good")
+    if kind == "magic-ck":
+        # checksum bytes that look like a line terminator / another preamble
+        ck, p = draw(gframes.odd_clsid()), draw(st.binary(max_size=12))
+        return item("ubx", codec.ubx_frame_with_checksum(ck[1][0:1], ck[1][1:2], p,
+                                                         draw(st.sampled_from(codec.MAGIC_CHECKSUMS))), "magic-ck")
+    if kind == "block":
+        # payload sizes at and around multiples of a 4096-byte block
+        n = draw(st.sampled_from([4093, 4094, 4095, 4096, 8190, 8191, 4094, 5000]))
+        seedb = draw(st.integers(0, 255))
+        import hashlib
+
+        return item("ubx", codec.ubx_frame(b"\x04", b"\x02", hashlib.shake_256(bytes([seedb])).digest(n)), "len>=256")
     if kind == "odd":
         ck, p = draw(gframes.odd_clsid()), draw(st.binary(max_size=20))
         return item("ubx", codec.ubx_frame(ck[1][0:1], ck[1][1:2], p), "odd")
@@ -104,14 +117,14 @@ def ubx_items(draw, good_bias=True):
 
 NMEA_FIELD = st.one_of(st.just(""), st.sampled_from(["A", "N", "W", "1", "12", "5327.04319", "00214.41396",
                                                      "223232.00", "0.5", "-3.2", "M", "V", "99.99", "020823"]),
-                       st.text(alphabet="0123456789.", min_size=1, max_size=8),
+                       st.text(alphabet="0123456789.", min_size=1, max_size=3),  # (longer numbers can be repeat counts: pynmeagps then loops that often)
                        st.text(alphabet="ABCDEFGHIJKLMNOPQRSTUVWXYZ", min_size=1, max_size=3))
 
 
 @st.composite
 def nmea_items(draw):
     kind = draw(st.sampled_from(["corpus", "corpus", "corpus", "gen", "badck", "unknown", "mutfield",
-                                 "prop-odd"]))
+                                 "prop-odd", "padded", "huge"]))
     base = draw(st.sampled_from(corpus()["nmea"]))
     if kind == "prop-odd":
         # proprietary sentences whose message-id field is missing or very short
@@ -120,6 +133,16 @@ def nmea_items(draw):
         return item("nmea", codec.nmea_frame(body), "prop-odd")
     if kind == "corpus":
         return item("nmea", base, "good")
+    if kind == "padded":
+        # unusual but line-terminated endings: blanks before CRLF, bare LF, CR CR LF
+        pad = draw(st.sampled_from([b" ", b"\t", b"  ", b""]))
+        end = draw(st.sampled_from([b"\r\n", b"\n", b"\r\r\n"]))
+        return item("nmea", base[:-2] + pad + end, "padded")
+    if kind == "huge":
+        total = draw(st.sampled_from([82, 83, 120, 200, 1023, 1024, 1025, 1500, 5000]))
+        head = "GNTXT,01,01,02,"
+        text = ("ABCDEFGHIJKLMNOPQRSTUVWXYZ0123456789 " * (total // 30 + 1))[: max(1, total - len(head) - 6)]
+        return item("nmea", codec.nmea_frame(head + text), "huge")
     if kind == "badck":
         body = base[1:base.rindex(b"*")]
         return item("nmea", b"$" + body + b"*" + (b"%02X" % ((int(codec.nmea_cksum(body), 16) + 1) % 256)) + b"\r\n",
@@ -170,14 +193,48 @@ def any_frame():
     return st.one_of(ubx_items(), ubx_items(), nmea_items(), rtcm_items())
 
 
+def twin_item(it, i, d):
+    """Checksum twin of a well-formed UBX frame item (same class/ID/length/checksum,
+    different payload), or None when the payload is shorter than 3 bytes."""
+    f = bytes(it["b"])
+    if it["p"] != "ubx" or len(f) < 11 or not codec.ubx_wellformed(f):
+        return None
+    p2 = codec.fletcher_twin(f[6:-2], i, d)
+    return item("ubx", codec.ubx_frame(f[2:3], f[3:4], p2), "twin")
+
+
 @st.composite
-def clean_streams(draw, min_frames=2, max_frames=7, noise=True):
+def error_burst(draw):
+    """100..130 frames that their parser rejects, back to back."""
+    n = draw(st.integers(100, 130))
+    kind = draw(st.sampled_from(["ubx", "nmea", "mixed"]))
+    out = []
+    for j in range(n):
+        if kind == "ubx" or (kind == "mixed" and j % 2):
+            f = codec.ubx_frame(b"\x05", b"\x01", bytes([j & 0xFF, 1]))
+            out.append(item("ubx", f[:-1] + bytes([f[-1] ^ 0x55]), "badck"))
+        else:
+            out.append(item("nmea", codec.nmea_frame(f"GNGLL,{j},N,2,W,1.00,A,A", good=False), "badck"))
+    return out
+
+
+@st.composite
+def clean_streams(draw, min_frames=2, max_frames=7, noise=True, bursts=True):
     n = draw(st.integers(min_frames, max_frames))
     out = []
     for i in range(n):
         if noise and draw(st.integers(0, 4)) == 0:
             out.append(draw(noise_items()))
-        out.append(draw(any_frame()))
+        fr = draw(any_frame())
+        out.append(fr)
+        if fr["p"] == "ubx" and draw(st.integers(0, 5)) == 0:
+            tw = twin_item(fr, draw(st.integers(0, 10 ** 6)), draw(st.integers(0, 254)))
+            if tw is not None:
+                if draw(st.booleans()):
+                    out.append(draw(st.one_of(nmea_items(), rtcm_items())))
+                out.append(tw)
+        if bursts and draw(st.integers(0, 24)) == 0:
+            out.extend(draw(error_burst()))
     if noise and draw(st.integers(0, 5)) == 0:
         out.append(draw(noise_items()))
     return out
